@@ -94,6 +94,45 @@ func gen(g *hx.Gen) {
 	g.Emit(gx.CaseLine(gx.Empty(1), 0, []string{"B:256.0"}))
 	g.Emit(gx.CaseLine(gx.Empty(1), 0, []string{"B:257.12"}))
 
+	// large graphs with answers known by construction, at sizes / degrees / counter values around
+	// 128, 256 (and 512 in the thorough tier): see constructed.go.  One token per case.
+	sizes := []int{127, 128, 129, 255, 256, 257}
+	if g.Pick(0, 1) == 1 {
+		sizes = append(sizes, 511, 512, 513)
+	}
+	big := func(fam, a, b, c int) {
+		g.Emit(gx.CaseLine(gx.Empty(1), 0, []string{gx.TokString('G', []int{fam, a, b, c, r.Intn(1 << 30)})}))
+	}
+	for _, m := range sizes {
+		big(0, m, 0, 0)           // star
+		big(1, m, 3, 0)           // double star, one big hub
+		big(1, m-1, m, 0)         // double star, two big hubs
+		big(2, m, 2+r.Intn(5), 0) // complete bipartite with a huge side
+		big(3, m, 1+r.Intn(3), 1+r.Intn(3))
+		for q := 3; q <= 4; q++ { // z collects m neighbours of one colour
+			big(4, q, m, m+1)
+		}
+		big(4, 3, m, 0)
+		big(6, m, 2+r.Intn(m-1), 0)
+		if m <= 300 && (m%2 == 0 || m > 250 && g.Pick(0, 1) == 1) { // big clique with pendant leaves (seconds each above 250)
+			big(5, m, 1, 0)
+		}
+		big(5, 3+r.Intn(6), m/4, 0) // small clique, many leaves
+	}
+
+	// volume where the branch and bound backtracks: batches of planted k-partite graphs checked
+	// without an exponential oracle (planted.go) ...
+	batches := g.Pick(40, 600)
+	for i := 0; i < batches; i++ {
+		g.Emit(gx.CaseLine(gx.Empty(1), 0, []string{gx.TokString('P', []int{r.Intn(1 << 30), 1000})}))
+	}
+	// ... and single planted graphs, n = 12..22, through the extracted proved model of dfsDsatur
+	singles := g.Pick(400, 5000)
+	for i := 0; i < singles; i++ {
+		gr, _ := plantedGraph(r, 12, 22)
+		g.Emit(gx.CaseLine(gr, 2, gx.Variants(r, gr.N, 3, "ds")[1:]))
+	}
+
 	// n = 0, 1, 2: every representation, every relabelling
 	for n := 0; n <= 2; n++ {
 		gx.AllLabelled(n, func(gr *gx.G) {
